@@ -87,10 +87,10 @@ func faultSite(stack string) string {
 
 func TestC17(t *testing.T) {
 	r := hx.Start(t, "C17")
-	r.SetRule("G-hostile under three configurations (default, XGo-builtin, bare = no node interpreter): (a) a deterministic grid of ~150 operation templates x 56 operand kinds (types, no-value and multi-value calls, nil, >64-bit and 1e400 constants, builtins, generic functions, blank ...), sharded, thorough tier enumerates it completely; (b) random template instantiations, extreme constant expression trees (shift counts up to 1<<63, negative and fractional counts, 10^4-digit literals, typed boundary constants) in expression and declaration contexts; (c) nesting 50..3000 deep of parentheses, unary/binary chains, blocks, closures, if/else, call chains, pointer/slice types, constant chains; (d) type-breaking mutants of G-valid programs. Oracle: a recovered panic whose value is a runtime.Error (or not an error/string at all) is a violation; a worker that dies (fatal error, address-space limit 6 GiB) or runs one case > 60 s is re-run alone and is a violation only if it dies again; nesting families must not slow down by more than x100 per x4 size. Non-trivial: the builder rejected the case or the case is from (b)/(c); distinct by source.")
+	r.SetRule("G-hostile under three configurations (default, XGo-builtin, bare = no node interpreter): (a) a deterministic grid of ~150 operation templates x 56 operand kinds (types, no-value and multi-value calls, nil, >64-bit and 1e400 constants, builtins, generic functions, blank ...), sharded, thorough tier enumerates it completely; (b) random template instantiations, extreme constant expression trees (shift counts up to 1<<63, negative and fractional counts, 10^4-digit literals, typed boundary constants) in expression and declaration contexts; (c) nesting 50..3000 deep of parentheses, unary/binary chains, blocks, closures, if/else, call chains, pointer/slice types, constant chains; (d) type-breaking mutants of G-valid programs. Oracle: a recovered panic whose value is a runtime.Error (or not an error/string at all) is a violation; a worker that dies (fatal error, address-space limit 6 GiB) or runs one case > 180 s is re-run alone and is a violation only if it dies again; nesting families must not slow down by more than x100 per x4 size. Non-trivial: the builder rejected the case or the case is from (b)/(c); distinct by source.")
 	r.Assume("reported errors of any kind (HandleErr, error/string panics incl. log.Panicln TODOs) are acceptable outcomes", "time limits are only used to detect hangs, confirmed in isolation")
 	defer r.Done()
-	c17Guard(60 * time.Second)
+	c17Guard(180 * time.Second)
 	eval := func(c *progCase) (string, string) {
 		c17CaseStart.Store(time.Now().UnixNano())
 		sig, msg, _ := c17Eval(c)
